@@ -594,7 +594,7 @@ func init() {
 		if r.Chance(1, 5) {
 			ws.Foreign = append(ws.Foreign, lcw.Entry{Path: lcw.B(cfg.Layers + "/" + t.Name + "~removed/keep.txt"), Kind: "f", Data: "old"})
 		}
-		if r.Chance(1, 3) { // a pristine layer: exactly what add creates
+		if r.Chance(1, 2) { // a pristine layer: exactly what add creates
 			for i := range ws.Layers {
 				if ws.Layers[i].Name == t.Name {
 					ws.Layers[i].Files, ws.Layers[i].Minimal, ws.Layers[i].Mountpoints = nil, false, false
